@@ -136,8 +136,13 @@ def layer_correspondence(ctx, tmp):
             form = 'attr ' + enc(node.attrib['many'])
         else:
             form = 'elements ' + ' '.join(enc(c.text or '') for c in node if c.tag == 'many')
-        rs2 = ResourceSet(); rs2.metamodel_registry[pk.nsURI] = pk
-        back = list(rs2.get_resource(URI(path)).contents[0].many)
+        try:
+            rs2 = ResourceSet(); rs2.metamodel_registry[pk.nsURI] = pk
+            back = list(rs2.get_resource(URI(path)).contents[0].many)
+        except Exception as e:
+            ctx.violate({'clause': 'many-attribute-values', 'error': type(e).__name__},
+                        f'many-valued attribute {vs!r}: load raised {type(e).__name__}: {e}', {'kind': 'layer', 'values': vs})
+            continue
         ctx.evaluations += 1
         ctx.count('layer/many-' + form.split()[0])
         model_in.append('many ' + ' '.join(enc(v) for v in vs)); expect.append(('L2 form', vs, form))
@@ -160,8 +165,13 @@ def layer_correspondence(ctx, tmp):
                     form = 'nil'
                 else:
                     form = 'absent'
-                rs2 = ResourceSet(); rs2.metamodel_registry[pk.nsURI] = pk
-                back = getattr(rs2.get_resource(URI(path)).contents[0], fname)
+                try:
+                    rs2 = ResourceSet(); rs2.metamodel_registry[pk.nsURI] = pk
+                    back = getattr(rs2.get_resource(URI(path)).contents[0], fname)
+                except Exception as e:
+                    ctx.violate({'clause': 'single-attribute-value', 'error': type(e).__name__},
+                                f'{fname}={v!r}: load raised {type(e).__name__}: {e}', {'kind': 'layer', 'value': v})
+                    continue
                 ctx.evaluations += 1
                 ctx.count('layer/one-' + form.split()[0])
                 t = lambda x: 'N' if x is None else enc(x)
